@@ -132,7 +132,7 @@ def run(ctx):
     ctx.check("P4-check-before-destruction", where, not (set(destructive + fetches) & r), "without force, _check() runs before any step that creates, copies or destroys", message="a reconfiguration step can run before the uncommitted-changes / unsynced-branches check")
     fc, gc, wc = fn_cfg(ctx, RC, "Reconfigure._check", roles={"reference_branch": ("assign", "branch.Branch.open(self._select_bind_location())")})
     rs = [norm(n.ast)[:60] for n in gc.nodes if n.kind == "stmt" and isinstance(n.ast, ast.Raise)]
-    g5 = gc.assume({"self._destroy_tree and self.tree.has_changes()": True})
+    g5 = gc.assume({"self._destroy_tree and self.tree.has_changes()": True, "self._destroy_tree": True, "self.tree.has_changes()": True})
     ctx.check("P4-check-before-destruction", wc, gc.exit not in g5.reachable_from_entry() and any("UncommittedChanges" in r_ for r_ in rs), "a tree with changes that is to be destroyed raises UncommittedChanges", construct="; ".join(rs))
     ctx.check("P4-check-before-destruction", wc, any("UnsyncedBranches" in r_ for r_ in rs) and "reference_branch.last_revision() != self.local_branch.last_revision()" in norm(fc), "replacing a branch by a reference to a branch with another tip raises UnsyncedBranches")
     # ---- P5: upgrade refuses an incompatible target before anything is moved ---------------------------------------
